@@ -69,7 +69,7 @@ def run(res, tier, seed):
     res.rule = RULE
     res.assumptions = ["keys are compared with Python == ('1' != 1)"]
     rnd = random.Random(seed * 5800079 + 4)
-    cases = gen_cases(rnd, 7000 if tier == 'quick' else 150000)
+    cases = gen_cases(rnd, 14000 if tier == 'quick' else 150000)
     for c in cases:
         res.count('join=%s pairs=%d' % (c['q']['join']['kind'], len(c['q']['join']['lhs'])))
         if c['A'] and c['B']:
